@@ -83,6 +83,49 @@ CLAIMS = {
          "position to reclaim (VF4; Put, Delete, batch flush, replay, hint load); every append of a mutating entry point (incl. batch flush and seal) is "
          "preceded by activeFile.Size()+estimate > DataFileSize with rotation on overflow (PS7); the counters are accessed under the lock (LK1). The "
          "numeric identity itself is not decided.", "3/C17"),
+ "C03": ("structural necessary conditions only: single-write rule, FS-mutation ownership table, flush typestates, guard facts, EOF-by-size rule",
+         "THIN. The deciding behaviour (which mapping a cut-off directory image re-opens to) is NOT decided. Decided necessary conditions: one Write call per "
+         "append, outside loops (WR1); file-system mutation primitives only in their owners, no O_TRUNC, O_APPEND for the standard log, Truncate only in MMap "
+         "(TB1); every Sync implementation reaches an OS flush and the active file is flushed before rotation (PS2, PS3); no panic on a cut tail in the "
+         "pre-checksum path (BD1, BD2, BD4); end of log decided by sizes only and records returned only after their last chunk (EOF1); recovery keeps "
+         "pending batch records across files (VF3); reader errors propagate (PS8).", "3/C03"),
+ "C06": ("framing/ordering/guard rules over Merge and the adoption function (dominance, natural-loop exits, value provenance), per-property error discipline",
+         "Decides: every file kind is written through the chunk framer it is read with (CD4); Merge reports every error (PS8); a record is rewritten only if "
+         "the index points exactly at it in Fid, BlockID and Offset (MG3); output ids stay strictly below the first non-participating id incl. equality (MG1); "
+         "the marker id is the one captured with the participating-file snapshot (MG2); rewritten records are untagged (VF3d); marker created after hint and "
+         "all output files are closed, leftovers removed first (PS5a/f); adoption gated, restartable, complete before cleanup, same names (PS5c-g); merge flag "
+         "test-and-set in one section and cleared only by its owner (LK4). Equality of mappings across adoption shapes is not decided.", "3/C06"),
+ "C07": ("ordering rules over Merge and the adoption function: dominance, natural-loop exit analysis, deferred-call scan, Stat-gating",
+         "Decides the structural skeleton of crash safety of merge/adoption: marker last, after durable closes of hint and every output file (PS5a, PS2); "
+         "leftovers of a crashed merge removed before reuse (PS5f); every adoption mutation dominated by the marker-id != 0 edge (PS5c); originals removed only "
+         "while a not-yet-adopted rewritten file still exists (PS5d); merge directory removed only after the rename loops ran to completion, never deferred, "
+         "loops left only by their condition or an error (PS5e); files adopted under their own names (PS5g); marker id provenance (MG2); framed marker (CD4). "
+         "The state recovered from each intermediate directory image is not decided.", "3/C07"),
+ "C10": ("type-shape / ownership tables for snapshot iterators, writes-through-receiver summaries, heap-order typestate, snapshot value-flow",
+         "Decides: the three shard-iterator types own their containers (fresh allocation or Clone) (TB5); index items and positions are immutable after "
+         "construction (TB2, TB2c) so shared item pointers cannot change under an iterator; observers are read-only in all implementations (TB5b); the merged "
+         "iterator re-establishes heap order after moving cursors on every path of Rewind/Seek/Next (HP1); ListKeys/Fold/NewIterator use one snapshot (VF6); "
+         "iterator construction holds the shard lock in a sufficient mode (LK7). Sortedness, completeness, Seek/prefix semantics and cursor arithmetic are "
+         "value dependent and not decided.", "3/C10"),
+ "C14": ("sibling-agreement rules: per-implementation retention verdicts, dispatch exhaustiveness, back-end durability parity, configuration taint",
+         "THIN. Relational over pairs of runs - not decided. Decided sibling-agreement conditions: all index implementations copy the key (RT3); both "
+         "dispatchers cover every declared constant (TB3); both I/O back-ends flush in Sync and before close (PS2); snapshot ownership parity (TB5, TB2c); "
+         "IndexType/ShardNum/FileIOType flow only into constructors, no other branch tests them (CF1); heap order independent of shard count (HP1); recovery "
+         "independent of how a batch was split across files (VF3e).", "3/C14"),
+ "C18": ("value provenance of hint entries + typestate (one hint per rewrite) + codec agreement + adoption naming",
+         "Decides: the hinted position is result #0 of the rewriting call of the same record and the key is that record's Key, written to the file opened with "
+         "the hint suffix, exactly one hint per successful rewrite (VF5); hint codec agreement (CD1); the hint loader inserts key and position of one decoded "
+         "record, charges its size, and the key is not an alias of a reused buffer (VF1, VF4, RT2); rewritten files are adopted under the same id and suffix "
+         "the hint names (PS5g). Equality of hint-built and scan-built indexes is not decided.", "3/C18"),
+ "C19": ("lock-protocol pairing in the datatype layer, metadata codec agreement, type-tag table, batch tagging",
+         "THIN. Reply equality with a reference model is NOT decided. Decided: on every path of every DataTypeService method each NewBatch is followed by "
+         "Commit, with no database call that takes the lock in between (LK5); metadata encoder/decoder agree incl. the List-only tail (CD1); each command family "
+         "passes its own tag to the lookup, which returns the wrong-type error on the mismatch edge (TB4); structure updates are batches whose records and seal "
+         "are tagged and replayed under their seal (VF3).", "3/C19"),
+ "C20": ("MMap size-reset typestate, backup argument/lock table, copy-completeness rule, error discipline of the copy",
+         "Decides: an MMap method truncates to the logical size only when unmapped and invalidates the mapping bound (TB6); Backup's size resets and copy "
+         "are dominated by the database WRITER lock; source = DirPath, destination = parameter, lock file excluded (TB7); the walk callback skips an entry "
+         "only for the root / an exclusion match (CP1); copy errors propagate (PS8). Equality of the copy with the source's mapping is not decided.", "3/C20"),
 }
 
 checks = []
@@ -111,7 +154,7 @@ m = {
               "kind_free_text": "repository-specific static analyser over go/packages + go/ssa + VTA/CHA call graphs (x/tools v0.29.0): path typestate, locksets, value flow, retention, codec agreement, guards, tables"}],
  "checks": checks,
  "notes": "Static analysis only (DESIGN.md). quick = all rules of the property on linux/amd64 with the VTA graph; thorough = the same rules on linux/amd64 and linux/386 with VTA and CHA graphs plus the property's self-validation variants (mutants/*.json, analysed through an in-memory overlay, never run). Exit 2 = tool failure (no verdict).",
- "not_applicable": [{"property_id": p['id'], "reason": "check not built yet (implementation in progress, see DESIGN.md section 9)"} for p in props if p['id'] not in CLAIMS],
+ "not_applicable": [{"property_id": p['id'], "reason": "not claimed"} for p in props if p['id'] not in CLAIMS],
 }
 json.dump(m, open(os.path.join(V, 'MANIFEST.json'), 'w'), indent=1)
 print("claimed", len(checks), "not_applicable", len(m["not_applicable"]))
